@@ -1132,6 +1132,8 @@ func callBuiltin(caller *frame, callpos token.Pos, fn *ssa.Builtin, args []value
 
 	case "len":
 		switch x := args[0].(type) {
+		case *symLenSlice:
+			return lower(types.Int, x.n)
 		case string, *symstr, *fdstr, *ropestr:
 			return i.strLen(x)
 		case array:
